@@ -7,3 +7,4 @@ open GN.Props.C13
 #print axioms port_is_a_number
 #print axioms escape_round_trip
 #print axioms query_escape_stable
+#print axioms href_parses_again_to_itself
